@@ -1,0 +1,23 @@
+// +build verif
+
+package rawmessagesfilter
+
+import (
+	"github.com/orbs-network/lean-helix-go/spec/types/go/primitives"
+	"sort"
+)
+
+// Verification hooks (build tag "verif" only): read-only snapshot of the future-height cache.
+
+type VerifCacheEntry struct {
+	Height primitives.BlockHeight
+	Count  int
+}
+
+func (f *RawMessageFilter) VerifCacheSnapshot() (latestFuture primitives.BlockHeight, entries []VerifCacheEntry) {
+	for h, msgs := range f.futureCache {
+		entries = append(entries, VerifCacheEntry{h, len(msgs)})
+	}
+	sort.Slice(entries, func(i, j int) bool { return entries[i].Height < entries[j].Height })
+	return f.latestFutureBlockHeight, entries
+}
